@@ -121,7 +121,11 @@ def showPages (ps : List (List Entry)) : String := "ok " ++ "/".intercalate (ps.
 
 def bytesOK (l : List Nat) : Bool := l.all (· < 256)
 
-def doReset (st : St) (busyTok : Bool) (mb nl bs bn bc : String) : St × String :=
+/-- `over=<k>`: k more records in the file than the line shows. -/
+def parseOver (s : String) : Option Nat :=
+  if s.startsWith "over=" then (s.drop 5).toNat? else none
+
+def doReset (st : St) (busyTok : Bool) (over : Nat) (mb nl bs bn bc : String) : St × String :=
   let st := if busyTok then { st with busy := true } else st
   let t := st.t
   match (["reset", mb, nl, bs, bn, bc] : List String) with
@@ -133,7 +137,8 @@ def doReset (st : St) (busyTok : Bool) (mb nl bs bn bc : String) : St × String 
         let t : Tbl := ⟨mb, nl, mkView bs bn, mkView bs bc⟩
         let s1 := if sortedAdj lessName t.byName then 1 else 0
         let s2 := if sortedAdj lessClass t.byClass then 1 else 0
-        let ld := reloadBCache ⟨st.busy, [], false⟩ bs
+        -- `over`: records written to .BRD behind the ones of this line (an oversized file)
+        let ld := reloadBCache mb ⟨st.busy, [], false⟩ (bs ++ List.replicate over default)
         ({ t := t, slots := mkView bs (List.range bs.length), cls := ClsState.fresh (bl.map (·.2)), busy := ld.busy },
           s!"n={ld.boards.length} sorted={s1},{s2} busy={if ld.busy then 1 else 0} resorted={if ld.sorted then 1 else 0}")
       else (st, "bad-op")
@@ -143,8 +148,11 @@ def doReset (st : St) (busyTok : Bool) (mb nl bs bn bc : String) : St × String 
 def stepC11 (st : St) (ws : List String) : St × String :=
   let t := st.t
   match ws with
-  | ["reset", mb, nl, bs, bn, bc] => doReset st false mb nl bs bn bc
-  | ["reset", mb, nl, bs, bn, bc, "busy"] => doReset st true mb nl bs bn bc
+  | ["reset", mb, nl, bs, bn, bc] => doReset st false 0 mb nl bs bn bc
+  | ["reset", mb, nl, bs, bn, bc, o] =>
+    match parseOver o with
+    | some k => doReset st false k mb nl bs bn bc
+    | none => if o = "busy" then doReset st true 0 mb nl bs bn bc else (st, "bad-op")
   | ["busy", "1"] => ({ st with busy := true }, "ok")     -- a loader died holding BBusyState
   | ["busy", "0"] => ({ st with busy := false }, "ok")
   | ["bid", q] =>
